@@ -10,6 +10,7 @@ CONSTANTS
   ClientMayClose = TRUE
   HandlerMayClose = TRUE
   StartMayFail = FALSE
+  SpareFields = FALSE
   SeqRestart = FALSE
   Bug = "none"
   TrackAct = FALSE
